@@ -394,7 +394,11 @@ class View(object):
         self.loc = fi.loc
         self.cls = fi.cls
         self.is_static = fi.is_static
-        self.original = fi
+        self.outer = getattr(fi, 'outer', None)
+        self.decorators = getattr(fi, 'decorators', [])
+        self.name = getattr(fi, 'name', '')
+        self.all_params = getattr(fi, 'all_params', fi.params)
+        self.original = getattr(fi, 'original', fi)
 
 
 def _literal_seq(e, env):
@@ -578,3 +582,83 @@ def inline_procedures(idx, fi, only=None):
     ast.fix_missing_locations(node)
     set_parents(node)
     return View(fi, node)
+
+
+# ------------------------------------------------------------------ expression-level inlining of pure helper predicates
+def _pure_body(callee):
+    """(assignments env, return expr) if the callee is `[docstring] name = expr ... return expr`, else None."""
+    body = [s for s in callee.node.body if not (isinstance(s, ast.Expr) and isinstance(s.value, ast.Constant))]
+    if not body or not isinstance(body[-1], ast.Return) or body[-1].value is None:
+        return None
+    env = {}
+    for s in body[:-1]:
+        if not (isinstance(s, ast.Assign) and len(s.targets) == 1 and isinstance(s.targets[0], ast.Name)) or s.targets[0].id in env:
+            return None
+        env[s.targets[0].id] = nf.subst(s.value, env)
+    if callee.node.args.vararg or callee.node.args.kwarg or any(isinstance(n, (ast.Yield, ast.YieldFrom, ast.Lambda)) for n in ast.walk(callee.node)):
+        return None
+    return env, nf.subst(body[-1].value, env)
+
+
+def inline_pure_calls(idx, fi, only=None):
+    """View of the function in which calls of pure single-expression helpers (resolved package functions whose body is a
+    few local bindings and one `return <expr>`) are replaced by that expression, also under short-circuit operators
+    (harmless for the analysis: the helper has no effects).  Returns (view, set of inlined qualified names)."""
+    from ..index import clone, set_parents
+    orig = getattr(fi, 'original', fi)
+    node = clone(fi.node)
+    mapping = {}
+    for a, b in zip(ast.walk(fi.node), ast.walk(node)):
+        if isinstance(a, ast.Call):
+            mapping[id(b)] = a
+    done = set()
+
+    class T(ast.NodeTransformer):
+        def visit_Call(self, n):
+            self.generic_visit(n)
+            a = mapping.get(id(n))
+            if a is None:
+                return n
+            try:
+                targets, how = idx.resolve_call(orig, a)
+            except Exception:
+                return n
+            fts = [t for t in targets if hasattr(t, 'node')]
+            if len(fts) != 1 or (only is not None and fts[0].qualname not in only):
+                return n
+            callee = fts[0]
+            pb = _pure_body(callee)
+            if pb is None:
+                return n
+            params = list(callee.params)
+            if callee.cls is not None and not callee.is_static:
+                params = params[1:]
+            try:
+                bound = bind_call(n, params)
+            except AnalysisError:
+                return n
+            if set(bound) != set(params):
+                return n
+            done.add(callee.qualname)
+            return ast.copy_location(nf.subst(pb[1], bound), n)
+    new = T().visit(node)
+    if not done:
+        return fi, done
+    ast.fix_missing_locations(new)
+    set_parents(new)
+    return View(fi, new), done
+
+
+def settle_unreviewed(idx, inlined, inside):
+    """Helpers whose every call site lies in the functions `inside` (qualified names) and was inlined there are no longer
+    unreviewed for this run."""
+    left = getattr(idx, 'unreviewed', None)
+    if not left:
+        return
+    for q in list(inlined):
+        if q not in left:
+            continue
+        name = q.rsplit('.', 1)[-1]
+        sites = [f.qualname for f in idx.package_funcs() if lib.calls_named(f.node, name) and f.qualname != q]
+        if all(s in inside for s in sites):
+            left.remove(q)
